@@ -409,6 +409,20 @@ func c05Worker(args []string) {
 			}
 		}
 	}
+	// raw headers with empty ranges, trailing separators and parameters without values
+	specials := []string{restful.MIME_JSON + ",", "," + restful.MIME_XML, restful.MIME_JSON + ",," + restful.MIME_XML, restful.MIME_XML + ";", restful.MIME_XML + ";q", restful.MIME_XML + ";q=",
+		restful.MIME_JSON + ";q=0.5," + restful.MIME_XML + ",", "*/*,", " , "}
+	// (a repeated q parameter and an unparsable q value are not decided by the property: not explored)
+	for _, produces := range c05ProducesLists(vnd) {
+		for _, accept := range specials {
+			why, key := judgeC05(produces, accept, registered, keys)
+			res.Cases++
+			res.Abstract++
+			if why != "" && len(res.Issues) < 60 {
+				res.Issues = append(res.Issues, c05Issue{"negotiation", "", fmt.Sprintf("Produces %v Accept %q default=%q vnd=%v : %s (%s)", produces, accept, def, vnd, why, key), c05Case{produces, accept, def, vnd, nil}})
+			}
+		}
+	}
 	data, _ := json.Marshal(res)
 	os.Stdout.Write(data)
 }
